@@ -31,9 +31,12 @@
 // IN CONNECTION WITH THE SOFTWARE OR THE USE OR OTHER
 // DEALINGS IN THE SOFTWARE.
 
+#[cfg(nucleo_verif)]
+use crate::verif::atomic::{self, AtomicBool};
 use std::cmp;
 use std::mem::{self, MaybeUninit};
 use std::ptr;
+#[cfg(not(nucleo_verif))]
 use std::sync::atomic::{self, AtomicBool};
 
 /// When dropped, copies from `src` into `dest`.
@@ -793,6 +796,8 @@ where
 
         // Very short slices get sorted using insertion sort.
         if len <= MAX_INSERTION {
+            #[cfg(nucleo_verif)]
+            crate::verif::count(0);
             insertion_sort(v, is_less);
             return false;
         }
@@ -800,6 +805,8 @@ where
         // If too many bad pivot choices were made, simply fall back to heapsort in order to
         // guarantee `O(n * log(n))` worst-case.
         if limit == 0 {
+            #[cfg(nucleo_verif)]
+            crate::verif::count(1);
             heapsort(v, is_less);
             return false;
         }
@@ -807,6 +814,8 @@ where
         // If the last partitioning was imbalanced, try breaking patterns in the slice by shuffling
         // some elements around. Hopefully we'll choose a better pivot this time.
         if !was_balanced {
+            #[cfg(nucleo_verif)]
+            crate::verif::count(2);
             break_patterns(v);
             limit -= 1;
         }
@@ -820,6 +829,8 @@ where
             // Try identifying several out-of-order elements and shifting them to correct
             // positions. If the slice ends up being completely sorted, we're done.
             if partial_insertion_sort(v, is_less) {
+                #[cfg(nucleo_verif)]
+                crate::verif::count(3);
                 return false;
             }
         }
@@ -829,6 +840,8 @@ where
         // This case is usually hit when the slice contains many duplicate elements.
         if let Some(ref p) = pred {
             if !is_less(p, &v[pivot]) {
+                #[cfg(nucleo_verif)]
+                crate::verif::count(4);
                 let mid = partition_equal(v, pivot, is_less);
 
                 // Continue sorting elements greater than the pivot.
@@ -838,6 +851,8 @@ where
         }
 
         // Partition the slice.
+        #[cfg(nucleo_verif)]
+        crate::verif::count(5);
         let (mid, was_p) = partition(v, pivot, is_less);
         was_balanced = cmp::min(mid, len - mid) >= len / 8;
         was_partitioned = was_p;
@@ -860,9 +875,13 @@ where
                 v = left;
             }
         } else if canceled.load(atomic::Ordering::Relaxed) {
+            #[cfg(nucleo_verif)]
+            crate::verif::count(7);
             break true;
         } else {
             // Sort the left and right half in parallel.
+            #[cfg(nucleo_verif)]
+            crate::verif::count(8);
             let (canceled1, canceled2) = rayon::join(
                 || recurse(left, is_less, pred, limit, canceled),
                 || recurse(right, is_less, Some(pivot), limit, canceled),
@@ -885,6 +904,8 @@ where
         return false;
     }
     if canceled.load(atomic::Ordering::Relaxed) {
+        #[cfg(nucleo_verif)]
+        crate::verif::count(9);
         return true;
     }
 
